@@ -124,6 +124,7 @@ def classify(c, prop):
             if m:
                 key = "crash:%s:assert:%s:%s" % (variant, os.path.basename(m.group(1)), m.group(2)[:48])
                 if "invalid (unaligned) pointer" in t.get("detail", ""): key += ":unaligned-pointer"
+                if c.meta.get("dedicated"): key += ":" + what        # dedicated case of a recorded finding: the key names the step as well, so the entry matches nothing else
         f = Finding(prop, key, t.get("detail", ""), c, refutes, "trip")
         return ("violation" if prop in refutes else "collateral"), f
     if r is not None and c.exit == 0 and not c.timed_out:
